@@ -57,8 +57,32 @@ def ctr(t):
     raise ValueError("transform kind not modelled: %s" % k)
 
 
+# shapes that exercise the requirement paths (complexities asked by filters in front of / behind an aggregate, group keys,
+# window partitions and sorts, join conditions, take ranges and sorts, DISTINCT ON)
+DIRECTED = [
+    "from t | derive {x = case [a > 1 => b, true => c]} | filter x > 0 | aggregate {n = count x}",
+    "from t | derive {x = case [a > 1 => b, true => c]} | filter x > 0 | group {g} (aggregate {n = sum x})",
+    "from t | derive {x = case [a > 1 => b, true => c]} | group {x} (aggregate {n = count b})",
+    "from t | derive {x = a + 1} | group {x} (aggregate {n = count b}) | filter n > 1 | derive {y = n * 2} | filter y > 2",
+    "from t | derive {w = sum b} | filter w > 1 | select {a, w}",
+    "from t | derive {w = sum b} | derive {v = w + 1} | sort {v} | take 2",
+    "from t | derive {r = row_number this} | filter r < 3 | aggregate {n = count r}",
+    "from t | group {g} (sort {id} | derive {r = row_number this}) | filter r == 1 | group {a} (aggregate {m = max r})",
+    "from t | derive {x = a + b} | join u (x == u.id) | select {t.a, u.d, x}",
+    "from t | derive {x = case [a > 1 => b, true => c]} | join u (x == u.id) | filter u.d > 0 | select {t.a, x}",
+    "from t | derive {k = a * 2} | sort {k, id} | take 2..3 | derive {z = k + 1} | filter z > 0",
+    "from t | group {g} (sort {-b} | take 1) | derive {x = a + 1} | filter x > 1",
+    "from t | aggregate {s = sum b, n = count a} | derive {q = s / n} | filter q > 1",
+    "from t | derive {x = a + 1} | aggregate {s = sum x} | derive {y = s + 1}",
+    "from t | select {a, b} | group {a, b} (take 1) | derive {n = count this} | filter n < 3 | select {a, b}",
+    "from t | derive {c2 = case [a > 1 => 1, true => 0]} | sort {c2, id} | take 3 | group {c2} (aggregate {n = count id})",
+    "from t | filter a > 0 | derive {x = b + 1} | filter x > 1 | derive {y = x * 2} | filter y > 2 | aggregate {m = max y} | filter m > 3",
+    "from t | window rolling:2 (derive {w = sum b}) | derive {x = case [w > 1 => a, true => b]} | filter x > 0 | group {g} (aggregate {n = count x})",
+]
+
+
 def splitoff_stream(ck, srcs, targets=("sql.sqlite", "sql.postgres")):
-    srcs = list(dict.fromkeys(srcs))
+    srcs = list(dict.fromkeys(DIRECTED + list(srcs)))
     reqs = [{"src": s, "target": t, "want": [], "msg_prefix": "verif:split_off_back"} for s in srcs for t in targets]
     ans = harness("log", reqs)
     exprs, meta, index = [], [], {}
